@@ -56,7 +56,7 @@ def case_1ax(W, cfg):
     ds = make_ds(axes, N, extra)
     grid = make_grid(ds, axes, **gkw)
     dims = axis_dims("X", layout)
-    call_rules = [None, "fill+fv", "fill", "extend", "periodic"] if gm in ("periodic", "fill25") else [None, "fill+fv"]
+    call_rules = [None, "fill+fv", "fill+fvdict", "fill", "extend", "periodic"] if gm in ("periodic", "fill25") else [None, "fill+fv"]
     for frm in layout:
         order = interleavings([dims[frm]], list(extra))[cfg["order"]]
         shape = [extra[d] if d in extra else plen(frm, N) for d in order]
